@@ -505,7 +505,7 @@ package leader
 //@   on call attemptAcquire assert C17.backoff_between_attempts: attempts == 0 || waitedSince
 //@   on ret attemptAcquire set attempts = attempts + 1
 //@   on ret attemptAcquire set waitedSince = false
-//@   on call CalculateBackoff as c assert C17.round_backoff_config: c.cfg.InitialBackoff == 50000000 && c.cfg.MaxBackoff == 5000000000 && c.cfg.BackoffMultiplier == 2.0 && c.cfg.Jitter == 0.1 && c.attempt == attempts - 1
+//@   on call CalculateBackoff as c assert C17+C06.round_backoff_config: c.cfg.InitialBackoff == 50000000 && c.cfg.MaxBackoff == 5000000000 && c.cfg.BackoffMultiplier == 2.0 && c.cfg.Jitter == 0.1 && c.attempt == attempts - 1
 //@   on ret CalculateBackoff as c set lastBackoff = c.result
 //@   ghost lastErrNonNil Bool = false
 //@   on ret attemptAcquire as r set lastErrNonNil = r.result != nil
@@ -558,7 +558,7 @@ package leader
 //@   ghost tokStored Bool = false
 //@   on lock kvElection.mu set wasLeaderAtLock = e.isLeader
 //@   on lock kvElection.mu set promoteSet = e.onPromote != nil
-//@   on store kvElection.isLeader as s assert C08+C03.promote_from_non_leader: s.value ==> !wasLeaderAtLock
+//@   on store kvElection.isLeader as s assert C08+C03+C19.promote_from_non_leader: s.value ==> !wasLeaderAtLock
 //@   on store kvElection.token as s assert C05+C02.term_token_is_published_token: s.value == token
 //@   on store kvElection.token set tokStored = true
 //@   on store kvElection.revision as s assert C01+C05.token_before_revision: tokStored && s.value == rev
@@ -589,7 +589,7 @@ package leader
 //@   ensures C08.promotion_goroutine_calls_back: scalls(onPromote) == ((claimed && promoteSet) ? 1 : 0)
 //@   ensures C09+C19.no_promote_after_stop: stateL == "STOPPED" || ctxNilL ==> !claimed && scalls(heartbeatLoop) == 0 && scalls(validationLoop) == 0 && scalls(onPromote) == 0
 //@   ensures C02+C06+C03+C07+C19.claims_when_running: stateL != "STOPPED" && !ctxNilL && !wasLeaderAtLock ==> claimed && scalls(heartbeatLoop) == 1 && scalls(validationLoop) == 1
-//@   ensures C03+C05+C07+C08.no_second_term_on_top_of_a_term: wasLeaderAtLock ==> !claimed && scalls(heartbeatLoop) == 0 && scalls(validationLoop) == 0 && scalls(onPromote) == 0
+//@   ensures C03+C05+C07+C08+C19.no_second_term_on_top_of_a_term: wasLeaderAtLock ==> !claimed && scalls(heartbeatLoop) == 0 && scalls(validationLoop) == 0 && scalls(onPromote) == 0
 
 // becomeFollower() and settleAsFollower() are thin unexported wrappers: always inlined into
 // their callers (where the caller's justification is known), never verified on their own.
